@@ -8,6 +8,7 @@ import time
 import traceback
 
 from .core import Violation, HarnessError, Outcome, case_hash, dumps
+from . import findings
 
 
 def load_prop(pid):
@@ -68,7 +69,7 @@ def run_shard(pid, tier, seed, shard, n_examples, outfile):
     assert_repo()
     stats = Stats()
     state = {'fail': None, 'after_fail': 0, 'known': {}}
-    shrink_cap = int(os.environ.get('VF_SHRINK_CAP', '1500' if tier == 'quick' else '20000'))
+    shrink_cap = int(os.environ.get('VF_SHRINK_CAP', getattr(prop, 'SHRINK_CAP', {}).get(tier, 1500 if tier == 'quick' else 20000)))
     guard = getattr(prop, 'CRASH_GUARD', False)
     curfile = outfile + '.cur'
 
@@ -83,7 +84,7 @@ def run_shard(pid, tier, seed, shard, n_examples, outfile):
         try:
             out = prop.run_case(case)
         except Violation as v:
-            if v.finding is not None:
+            if v.finding is not None and findings.is_open(pid, v.finding):
                 # attributed to an open known finding: count it, keep searching
                 state['known'].setdefault(v.finding, (case, v.msg))
                 stats.add(prop, case, Outcome(labels=['known-finding:' + v.finding], known=[v.finding]))
